@@ -44,6 +44,12 @@ type Runner struct {
 	FailingTxs     int
 	etxIDs         map[string]int
 	etxEmitted     map[int]etxRec
+	IndexChecks    int
+	craftExtra     []*types.Transaction
+	craftNeeds     common.Hash
+	crafted        bool
+	SlotCalls      int // calls to the storage contract offered to the pool
+	Chained        int // blocks with a same-block chained Qi spend that were accepted
 }
 
 type Problem struct {
@@ -148,6 +154,20 @@ func (r *Runner) observe() (map[string]interface{}, *State, error) {
 	ev := map[string]interface{}{
 		"utxo": r.abstractSet(entrySet(st)), "head": headID, "mem_head": r.head(), "canon": canon, "canon_above_head": above,
 		"root_ok": rootOK, "size_ok": size == storedSize,
+	}
+	if r.E.Net.Opt.IndexAddressUtxos {
+		// the per-address index must list exactly the unspent outputs of each address (derived from the 'ut' scan itself)
+		idx, err := ScanAddrIndex(db)
+		if err != nil {
+			return nil, nil, err
+		}
+		r.IndexChecks++
+		if d := DiffIndex(idx, st.IndexOf()); len(d) > 0 {
+			if len(d) > 6 {
+				d = d[:6]
+			}
+			r.Problems = append(r.Problems, Problem{"address-index-differs-from-utxo-set", map[string]interface{}{"head": headID, "event": len(r.Events), "diff": d}})
+		}
 	}
 	return ev, st, nil
 }
@@ -291,6 +311,21 @@ func (r *Runner) RandomContent(n int) (submitted int) {
 			} else if r.Verbose {
 				fmt.Println("qi tx rejected by pool:", err)
 			}
+		case x < 9 && e.SlotContract != nil && len(e.Quai) > 2 && r.R.Intn(2) == 0: // storage: set / clear / re-read one slot across blocks
+			from := e.Quai[1]
+			arg := make([]byte, 32)
+			if r.SlotCalls%2 == 0 { // set, clear, set, clear ...: every set after a clear re-reads the cleared slot
+				arg[31] = byte(1 + r.R.Intn(200))
+			}
+			tx, err := wallet.QuaiTx(e.Signer, e.ChainID, from, r.stateNonce(from)+r.quaiNonce[from.Addr], e.SlotContract, big.NewInt(0), 120000, r.gasPrice(), arg)
+			if err != nil {
+				continue
+			}
+			if err := e.AddTx(tx); err == nil {
+				submitted++
+				r.quaiNonce[from.Addr]++
+				r.SlotCalls++
+			}
 		case x < 9: // Quai transfer
 			from := e.Quai[r.R.Intn(len(e.Quai))]
 			to := e.Quai[r.R.Intn(len(e.Quai))].Addr
@@ -423,6 +458,24 @@ func (r *Runner) MineOn(parent int, wantOrder int) (int, error) {
 	if err != nil {
 		return -1, err
 	}
+	r.crafted = false
+	if len(r.craftExtra) > 0 && m.Order == mininet.Zone {
+		has := false
+		for _, tx := range m.Blocks[mininet.Zone].Transactions() {
+			if tx.Hash() == r.craftNeeds {
+				has = true
+			}
+		}
+		if has {
+			cw, err := r.craft(m.Blocks[mininet.Zone], r.craftExtra)
+			if err != nil {
+				return -1, fmt.Errorf("craft: %w", err)
+			}
+			m = &mininet.Mined{Order: mininet.Zone, Hash: cw.Hash()}
+			m.Blocks[mininet.Zone] = cw
+			r.crafted = true
+		}
+	}
 	r.dbgAddrs("after-assemble", m.Blocks[mininet.Zone])
 	if len(r.ReexecProcs) > 0 {
 		r.Reexecute(len(r.Blocks), m.Blocks[mininet.Zone], r.ReexecProcs)
@@ -456,10 +509,22 @@ func (r *Runner) MineOn(parent int, wantOrder int) (int, error) {
 	// delta of this block, learned from database scans (independent of the node's undo records)
 	a, b := entrySet(before), entrySet(after)
 	inputs := map[string]bool{}
+	madeHere := map[string]bool{} // outputs created by an earlier transaction of this very block (peer-made blocks may spend them)
 	for _, tx := range zb.Transactions() {
 		if tx.Type() == types.QiTxType {
 			for _, in := range tx.TxIn() {
-				inputs[fmt.Sprintf("%x:%d", in.PreviousOutPoint.TxHash[:], in.PreviousOutPoint.Index)] = true
+				key := fmt.Sprintf("%x:%d", in.PreviousOutPoint.TxHash[:], in.PreviousOutPoint.Index)
+				if madeHere[key] {
+					if _, still := after.Utxos[key]; still {
+						r.Problems = append(r.Problems, Problem{"spent-output-still-present", map[string]interface{}{"block": id, "outpoint": key, "created_in_same_block": true}})
+					}
+					continue
+				}
+				inputs[key] = true
+			}
+			h := tx.Hash()
+			for i := range tx.TxOut() {
+				madeHere[fmt.Sprintf("%x:%d", h[:], i)] = true
 			}
 		}
 	}
@@ -547,6 +612,10 @@ func indexByte(s string, c byte) int {
 	return len(s)
 }
 
+// ResetNonces forgets the Quai nonces handed out for transactions that are still in the pool (call it after the
+// node was restarted or the head moved without the Runner's MineOn/SetHead).
+func (r *Runner) ResetNonces() { r.quaiNonce = map[common.Address]uint64{} }
+
 // Blocks2Head returns the abstract id of the zone's current in-memory head.
 func (r *Runner) Blocks2Head() int { return r.head() }
 
@@ -587,7 +656,7 @@ func (r *Runner) compareFollower(fi, id int, leader *State) {
 // the complete database image (C10: reorg result == state of a node that only saw the winner).
 func (r *Runner) FreshReplay(tag string) error {
 	opt := r.E.Net.Opt
-	opt.Backend, opt.Dir, opt.ZoneDB, opt.WrapZoneDB = "memory", "", nil, nil
+	opt.Backend, opt.Dir, opt.ZoneDB, opt.WrapZoneDB, opt.WrapDB = "memory", "", nil, nil, nil
 	f, err := mininet.New(opt)
 	if err != nil {
 		return err
@@ -666,6 +735,17 @@ func (r *Runner) WarmUp() (int, error) {
 		}
 		if terr = r.E.AddTx(tx); terr != nil {
 			return head, fmt.Errorf("deploying the lockup-owner contract: %w", terr)
+		}
+	}
+	if r.E.SlotContract != nil && len(r.E.Quai) > 2 {
+		inner := &types.QuaiTx{ChainID: r.E.ChainID, Nonce: 0, GasPrice: r.gasPrice(), Gas: 2000000, To: nil, Value: big.NewInt(0), Data: r.E.SlotInit,
+			AccessList: types.AccessList{{Address: *r.E.SlotContract}}}
+		tx, terr := types.SignTx(types.NewTx(inner), r.E.Signer, r.E.Quai[1].Priv)
+		if terr != nil {
+			return head, terr
+		}
+		if terr = r.E.AddTx(tx); terr != nil {
+			return head, fmt.Errorf("deploying the storage contract: %w", terr)
 		}
 	}
 	step(-1)
